@@ -1,19 +1,23 @@
 """C11 -- GATT attribute permissions gate every read and write path.
 
-Part 1 (this file): the two gates themselves, value profile
-  bumble.att:Attribute.read_value    normal return  =>  readable and the link meets the read requirements;
-                                     otherwise ATT_Error(matching code, att_handle) raised *before* the value is
-                                     read (AttributeValue.read) and before EVENT_READ is emitted
+Part 1 (this file): the link-security gates, value profile
+  bumble.att:Attribute.read_value    normal return  =>  the link meets the attribute's read encryption /
+                                     authentication / authorisation requirement; otherwise ATT_Error(matching code,
+                                     att_handle) raised *before* the value is read (AttributeValue.read) and before
+                                     EVENT_READ is emitted
   bumble.att:Attribute.write_value   symmetric; on refusal nothing is written (static value unchanged, dynamic
                                      value's write function not called, EVENT_WRITE not emitted)
-Part 2 (contracts/c11_server.py): the eight reading / writing handlers of gatt_server.Server against these
-contracts.
+These two methods are also the *local* access path (Server.notify_subscriber reads the value of a notify-only
+characteristic through read_value; applications and the unit tests call them directly), so the READABLE /
+WRITEABLE half of the statement ("a peer can obtain the value only if the attribute is readable") is stated where
+the statement puts it: on every ATT operation of a peer -- Part 2 (contracts/c11_server.py): the reading / writing
+handlers of gatt_server.Server against callee views of these contracts.
 """
 import inspect
 
 from bumble import att, l2cap
 from pyvc.contracts import Bool, Bytes, Callback, Const, Inst, Int, IntRange, OneOf, contract, implies, model
-from spec.att_perm import may_read, may_write, read_refusal_code_ok, write_refusal_code_ok
+from spec.att_perm import link_ok_read, link_ok_write, read_link_refusal_code_ok, write_link_refusal_code_ok
 
 ENVIRONMENT = [
     'link security state is what Connection.encryption / Connection.authenticated say (set by the SMP/HCI '
@@ -115,8 +119,8 @@ def untouched(old, ghost):
 
 def read_ok(self, bearer, res, old, ghost):
     return [
-        # statement: a peer obtains the value only if ...
-        may_read(self.permissions, encrypted(bearer), authenticated(bearer)),
+        # statement: a peer obtains the value only if ... the link meets its read requirement
+        link_ok_read(self.permissions, encrypted(bearer), authenticated(bearer)),
         # the value handed out is the attribute's value
         implies(is_dynamic(self), res == ghost.src and ghost.reads == old.ghost.reads + 1),
         implies(not is_dynamic(self) and self.value is not None, res == self.value and ghost.reads == old.ghost.reads),
@@ -126,20 +130,22 @@ def read_ok(self, bearer, res, old, ghost):
     ]
 
 
-READ_OK_NAMES = ['readable-and-link-meets-requirements', 'dynamic-value', 'static-value', 'no-value', 'read-event', 'not-written']
+READ_OK_NAMES = ['link-meets-read-requirements', 'dynamic-value', 'static-value', 'no-value', 'read-event', 'not-written']
 
 
 def read_refused(self, bearer, exc, old, ghost):
-    ok = may_read(self.permissions, encrypted(bearer), authenticated(bearer))
+    ok = link_ok_read(self.permissions, encrypted(bearer), authenticated(bearer))
     return [
         exc.att_handle == self.handle,
         # refusal: the matching error, raised before the value is read or the event emitted
-        implies(not ok, read_refusal_code_ok(exc.error_code, self.permissions, encrypted(bearer), authenticated(bearer))),
+        implies(not ok, read_link_refusal_code_ok(exc.error_code, self.permissions, encrypted(bearer), authenticated(bearer))),
         implies(not ok, untouched(old, ghost)),
         # an allowed read may still fail inside the application's value function: its code is passed on
         implies(ok, is_dynamic(self) and ghost.cb_err != 0 and exc.error_code == ghost.cb_err and ghost.emits == old.ghost.emits and ghost.writes == old.ghost.writes),
     ]
 
+
+READ_REFUSED_NAMES = ['handle-in-error', 'matching-error-code', 'refused-before-value-read-or-event', 'application-error-passed-on']
 
 contract(
     'bumble.att:Attribute.read_value',
@@ -157,7 +163,7 @@ contract(
 
 def write_ok(self, bearer, value, old, ghost):
     return [
-        may_write(self.permissions, encrypted(bearer), authenticated(bearer)),
+        link_ok_write(self.permissions, encrypted(bearer), authenticated(bearer)),
         implies(is_dynamic(self), ghost.writes == old.ghost.writes + 1 and ghost.written == value and self.value is old.self.value),
         implies(not is_dynamic(self), self.value == value and ghost.writes == old.ghost.writes),
         ghost.emits == old.ghost.emits + 1 and ghost.emitted == value,
@@ -165,7 +171,7 @@ def write_ok(self, bearer, value, old, ghost):
     ]
 
 
-WRITE_OK_NAMES = ['writable-and-link-meets-requirements', 'dynamic-value-written', 'static-value-replaced', 'write-event', 'not-read']
+WRITE_OK_NAMES = ['link-meets-write-requirements', 'dynamic-value-written', 'static-value-replaced', 'write-event', 'not-read']
 
 
 def same_value(self, old):
@@ -174,10 +180,10 @@ def same_value(self, old):
 
 
 def write_refused(self, bearer, value, exc, old, ghost):
-    ok = may_write(self.permissions, encrypted(bearer), authenticated(bearer))
+    ok = link_ok_write(self.permissions, encrypted(bearer), authenticated(bearer))
     return [
         exc.att_handle == self.handle,
-        implies(not ok, write_refusal_code_ok(exc.error_code, self.permissions, encrypted(bearer), authenticated(bearer))),
+        implies(not ok, write_link_refusal_code_ok(exc.error_code, self.permissions, encrypted(bearer), authenticated(bearer))),
         # statement: a refused access always leaves the attribute unchanged
         implies(not ok, untouched(old, ghost) and same_value(self, old)),
         implies(ok, is_dynamic(self) and ghost.cb_err != 0 and exc.error_code == ghost.cb_err and ghost.emits == old.ghost.emits and same_value(self, old)),
